@@ -152,8 +152,11 @@ def sec6():
         'crypto/rand (C09); a listener\'s zero outbound queue size is replaced by the default in the accept path (C07, C15); the',
         'reply hand-over channel is unbuffered (C16, C17); ConnectNet never hands a nil logger to a transport, the websocket',
         'control-frame handlers of both send loops never block on the send goroutine (C17); ruleFailCall shared with C06, progressive stickiness with C13.',
-        'One round-5 variant (an off-by-one bound on a new serializer table indexed by the handshake byte) is caught by C15',
-        'only: C04\'s index rule covers message payload lists, not tables indexed by wire bytes.',
+        'One round-5 variant (an off-by-one bound on a new serializer table indexed by the handshake byte) was at first caught',
+        'only by C15, and only because the handshake no longer had the shape C15 expects; C04 now has the clause itself: an',
+        'array index computed from a byte of a locally read buffer is masked/shifted below the array size or dominated by a',
+        'constant comparison that bounds it (zero such sites on the unchanged tree; silent on the corrected table-driven',
+        'handshake, one violation on the off-by-one). Indices that come from parameters are not decided and are skipped.',
         'Reading for these rounds also turned up four more genuine defects, all reproduced and repaired: D31 (sub-agent',
         'remark while working on C02), D32–D34 (sub-agent remarks while working on C06) and D35 (several sub-agents saw the',
         'repository\'s own TestClientRace hang in Client.Register under load: an API call blocked in its send when the session',
